@@ -353,6 +353,7 @@ class DB:
         self.adts = {}
         self.impls = []
         self.layouts = []
+        self.layout_grid = []
         self.consts = {}
         self.traits = {}
         pk = os.path.join(factdir, 'db.pickle')
@@ -375,6 +376,7 @@ class DB:
                 im['crate'] = cr
                 self.impls.append(im)
             self.layouts.extend(raw['layouts'])
+            self.layout_grid.extend(raw.get('layout_grid', []))
             self.consts.update(raw['consts'])
             self.traits.update(raw['traits'])
         self._callers = None
